@@ -77,8 +77,12 @@ class Reporter:
                 print(f"VIOLATION property={self.pid} replay={path}")
                 print("  " + v["what"][:400])
                 shown += 1
+        if self.violations:
+            for m in self.machinery[:3]:     # secondary: e.g. a model counter-example the changed code no longer follows
+                print("NOTE (machinery): " + m[:400])
+            return 1
         if self.machinery:
             for m in self.machinery[:5]:
                 print("MACHINERY-FAILURE: " + m[:3000])
             return 2
-        return 1 if self.violations else 0
+        return 0
